@@ -68,10 +68,14 @@ fn block(rng: &mut Rng, name: &[u8], patch: bool) -> Vec<u8> {
 }
 
 fn canonical_file(rng: &mut Rng) -> Vec<u8> {
-    let mut out: Vec<u8> = match rng.below(4) {
+    let mut out: Vec<u8> = match rng.below(7) {
         0 => b"$NetBSD$".to_vec(),
         1 => b"$NetBSD: distinfo,v 1.80 2024/05/27 19:17:21 riastradh Exp $".to_vec(),
         2 => b"$NetBSD: caf\xe9 \xa0 $".to_vec(),
+        // "RCS Id lines of any bytes": trailing blanks / CR / FF / VT belong to the Id
+        3 => b"$NetBSD: distinfo,v 1.2 wiz Exp $ ".to_vec(),
+        4 => b"$NetBSD: j\xf6rg Exp $\r".to_vec(),
+        5 => b"$NetBSD: x $\t \x0c\x0b".to_vec(),
         _ => b"$NetBSD: x $".to_vec(),
     };
     out.extend(b"\n\n");
@@ -92,9 +96,11 @@ fn build_calls(rng: &mut Rng) -> Vec<Vec<u8>> {
     let mut calls: Vec<Vec<u8>> = vec![];
     if rng.chance(2, 3) {
         let mut c = vec![0u8];
-        c.extend(match rng.below(3) {
+        c.extend(match rng.below(5) {
             0 => b"$NetBSD: distinfo,v 1.1 2024/01/01 00:00:00 x Exp $".to_vec(),
             1 => b"$NetBSD: \xe9 $".to_vec(),
+            2 => b"$NetBSD: y $ \t".to_vec(),
+            3 => b"$NetBSD: z $\r".to_vec(),
             _ => b"$NetBSD: y $".to_vec(),
         });
         calls.push(c);
@@ -386,6 +392,16 @@ fn gen_c12(tier: &str, rng: &mut Rng, emit: &mut dyn FnMut(Op)) {
         path.extend(name);
         let exists = if rng.chance(1, 12) { &b"0"[..] } else { &b"1"[..] };
         emit(Op::new("distinfo.verify", &[&doc, &path, &file, exists, fplain.as_bytes(), fpatch.as_bytes()]));
+        // the same record through the Entry-level API, where the file on disk need not be named
+        // like the entry: the hashing mode must follow the ENTRY's type
+        if rng.chance(1, 2) {
+            let last: &[u8] = name.rsplit(|c| *c == b'/').next().unwrap();
+            let fname: &[u8] = match rng.below(3) {
+                0 => last,
+                _ => if is_patch { b"main.c.diff" } else { b"patch-zz" },
+            };
+            emit(Op::new("entry.verify", &[&doc, name, fname, &file, fplain.as_bytes(), fpatch.as_bytes()]));
+        }
     }
     // lookup: every subset of recorded names sharing tails x lookup paths of 1-5 components
     let recs: [&[u8]; 5] = [b"a/b/c.tgz", b"b/c.tgz", b"c.tgz", b"patch-aa", b"p/patch-aa"];
@@ -424,7 +440,7 @@ pub fn gen(id: &str, tier: &str, rng: &mut Rng, emit: &mut dyn FnMut(Op)) {
                 });
             }
             // files are exercised by their own properties; C17 is about parsers and matchers
-            pool.retain(|o| !matches!(o.name.as_str(), "distinfo.verify" | "pkgdb.iter"));
+            pool.retain(|o| !matches!(o.name.as_str(), "distinfo.verify" | "entry.verify" | "pkgdb.iter"));
             let n = if tier == "thorough" { 60000 } else { 4000 };
             fuzz(&pool, n, rng, emit);
         }
